@@ -37,6 +37,7 @@ func runC07(w *World) {
 	per := (total + nc - 1) / nc
 	style := w.knob("style", 3)
 	nodl := w.knob("nodeadlines", 2) == 1
+	burst := w.knob("burst", 6) == 1
 	var clients []*Actor
 	for i := 0; i < nc; i++ {
 		i := i
@@ -61,6 +62,13 @@ func runC07(w *World) {
 					p = appendScript(p, r, scriptCmd(r, g))
 				} else {
 					p = append(p, g.cmd(r))
+				}
+			}
+			if burst {
+				// a stream of moves on the fenced collections (too long for the porcupine second
+				// opinion, which such runs skip; the log-order oracles apply as everywhere)
+				for j := 0; j < 25; j++ {
+					p = append(p, Cmd{Args: []string{"SET", g.keys[r.Intn(2)], pick(r, g.freeIDs), "POINT", g.lat(r), g.lon(r)}})
 				}
 			}
 			return p
@@ -88,6 +96,29 @@ func runC07(w *World) {
 			}
 		}
 		return true
+	}
+	// in a quarter of the runs the live fences' own lock requests are held back until the
+	// clients are half way through: the fences then find a long queue of events and work it
+	// off while further writes arrive
+	if nl > 0 && (w.knob("holdlive", 4) == 1 || burst) {
+		inst.lock.holdRole = "golive"
+		w.stepHooks = append(w.stepHooks, func() {
+			if inst.lock.holdRole != "golive" {
+				return
+			}
+			done, all := 0, 0
+			for _, a := range clients {
+				done += a.next
+				all += len(a.prog)
+			}
+			if done*2 >= all {
+				inst.lock.holdRole = ""
+				w.stat("c07.live_fences_released_with_backlog", 1)
+			}
+		})
+	}
+	if burst {
+		total += 25 * nc
 	}
 	w.RunChaos(total*120, allDone)
 	if !w.failed() && !allDone() {
